@@ -353,37 +353,40 @@ Definition tri_nonempty (t : tri) : option (list (Z * Z * Z)) :=
   match t with TSome (x :: l) => Some (x :: l) | _ => None end.
 
 (* one fragment of refine_fragments: returns the output fragments and the new group count *)
-Definition refine_one (ct : chartab) (max_punc : Z) (e : str) (n_groups : Z) (v : vfrag) (a : acc) : list frag * Z :=
+(* the refinement of a fragment that is not one constant string *)
+Definition refine_rest (ct : chartab) (max_punc : Z) (e : str) (n_groups : Z) (v : vfrag) (a : acc) : list frag * Z :=
   let c := vf_code v in
   let single m M at_ := ([{| f_atom := at_; f_min := m; f_max := M |}], n_groups) in
   let plain code := ([{| f_atom := AClass code; f_min := vf_min v; f_max := vf_max v |}], n_groups) in
-  match a_strings a with
-  | [s] => single 1 (Some 1) (ALit s)
+  match a_chars a with
+  | [ch1] => single (vf_min v) (vf_max v) (ALit [ch1])
   | _ =>
-    match a_chars a with
-    | [ch1] => single (vf_min v) (vf_max v) (ALit [ch1])
-    | _ =>
-      if Z.eqb c cUC then
-        match tri_nonempty (a_c a) with
-        | Some rlec => (map (plusify true) rlec, n_groups)
-        | None =>
-          let general :=
-            match List.find (fun code => forallb (cat_sem ct false e code) (a_chars a)) (general_order e) with
-            | Some code => plain code
-            | None => plain c
-            end in
-          match tri_nonempty (a_fc a) with
-          | Some rlefc =>
-            if Z.leb (n_groups + Z.of_nat (List.length rlefc) - 1) max_groups
-            then (map (plusify false) rlefc, n_groups + Z.of_nat (List.length rlefc) - 1)
-            else general
-          | None => general
-          end
+    if Z.eqb c cUC then
+      match tri_nonempty (a_c a) with
+      | Some rlec => (map (plusify true) rlec, n_groups)
+      | None =>
+        let general :=
+          match List.find (fun code => forallb (cat_sem ct false e code) (a_chars a)) (general_order e) with
+          | Some code => plain code
+          | None => plain c
+          end in
+        match tri_nonempty (a_fc a) with
+        | Some rlefc =>
+          if Z.leb (n_groups + Z.of_nat (List.length rlefc) - 1) max_groups
+          then (map (plusify false) rlefc, n_groups + Z.of_nat (List.length rlefc) - 1)
+          else general
+        | None => general
         end
-      else if Z.eqb c cP && Z.leb (Z.of_nat (List.length (a_chars a))) max_punc then
-        single (vf_min v) (vf_max v) (ABracket (a_chars a))
-      else plain c
-    end
+      end
+    else if Z.eqb c cP && Z.leb (Z.of_nat (List.length (a_chars a))) max_punc then
+      single (vf_min v) (vf_max v) (ABracket (a_chars a))
+    else plain c
+  end.
+
+Definition refine_one (ct : chartab) (max_punc : Z) (e : str) (n_groups : Z) (v : vfrag) (a : acc) : list frag * Z :=
+  match a_strings a with
+  | [s] => ([{| f_atom := ALit s; f_min := 1; f_max := Some 1 |}], n_groups)
+  | _ => refine_rest ct max_punc e n_groups v a
   end.
 
 Fixpoint refine_all (ct : chartab) (max_punc : Z) (e : str) (n_groups : Z) (vs : list vfrag) (accs : list acc) : list frag :=
